@@ -218,6 +218,15 @@ def apply_net_op(desc, op):
     from CircuitCalculator.Network import loaders
     if op[0] == "load_network":
         return adapt.to_netlist(loaders.load_network(desc))
+    if op[0] == "load_network_from_json":
+        d = tempfile.mkdtemp(prefix="verif_c17_")
+        try:
+            path = os.path.join(d, "net.json")
+            with open(path, "w") as f:
+                json.dump(desc, f)
+            return adapt.to_netlist(loaders.load_network_from_json(path))
+        finally:
+            shutil.rmtree(d, ignore_errors=True)
     z = loaders.to_complex(desc[op[1]][op[2]], degree=op[3])
     return [z.real, z.imag]
 
@@ -244,6 +253,7 @@ def run_net(kind, res):
                         if any(isinstance(v, dict) for e in desc for v in e.values()):
                             res["nontrivial"] += 1
                         ops = net_ops(desc)
+                        history_net(copy.deepcopy(desc), exp, [["load_network_from_json"], ["load_network"], ["load_network_from_json"]], res)
                         for L in (1, 2, 3):
                             seqs = itertools.product(ops, repeat=L)
                             for seq in seqs:
@@ -269,7 +279,7 @@ def history_net(desc, exp, history, res):
             err = None
         except Exception as e:
             got, err = None, e
-        if op[0] == "load_network":
+        if op[0] in ("load_network", "load_network_from_json"):
             bump(res["hits"], "kind_loads_exactly")
             if iso_err is not None:
                 add_violation(res, "kind_loads_exactly", dict(case, history=[op]), "the described network", "%s: %s" % (type(iso_err).__name__, iso_err),
